@@ -1,4 +1,5 @@
 import Wayfind.Model.Basic
+import Wayfind.Spec.DrawingText
 
 /-! L0 for C15, stated on the *printed* tree: parse the drawing back into (depth, label, mark) lines and check
 that it is the canonical compressed radix tree of a given list of route texts. Used as an oracle on the
@@ -10,17 +11,10 @@ structure DLine where
   marked : Bool
 deriving Repr
 
+/-- one printed line: the reader of `Spec/DrawingText.lean` (`parseLineC`, about which `Proofs/DrawText1` proves that it reads
+back every line `Display` prints), with the label as a string -/
 def parseDLine (line : String) : Option DLine :=
-  let cs := line.toList
-  let pre := cs.takeWhile (fun c => c == ' ' || c == '│')
-  let rest := cs.drop pre.length
-  let (depth, body) : Nat × List Char :=
-    match rest with
-    | g :: '─' :: ' ' :: body => if (g == '├' || g == '╰') && pre.length % 3 == 0 then (pre.length / 3 + 1, body) else (0, cs)
-    | _ => (0, cs)
-  if depth == 0 && !pre.isEmpty then none else
-  let s := String.ofList body
-  if s.endsWith " [*]" then some ⟨depth, (s.dropEnd 4).toString, true⟩ else some ⟨depth, s, false⟩
+  (parseLineC line.toList).map (fun x => ⟨x.1, String.ofList x.2.1, x.2.2⟩)
 
 def parseDrawing (text : String) : Option (List DLine) :=
   if text.isEmpty then some [] else (text.splitOn "\n").mapM parseDLine
